@@ -79,3 +79,109 @@ package schema
 //@             forall n int :: (- 9223372036854775808) <= n && n <= 9223372036854775807 && iv.ItemValue == itoa(n) ==> result.(int64) == n
 //@   ensures [float-parsed-as-float64] iv.ItemType == ItemTypeFloat ==> is(result, float64) &&
 //@             forall x float64 :: iv.ItemValue == fmtv(x) ==> result.(float64) == x
+
+// ---------------------------------------------------------------------------------------------------------------
+// builder.go: auto layout geometry (C19).  Coordinates are real numbers here (float64 rounding is not modelled).
+
+//@ func DefaultPoint
+//@   prop C19
+//@   modifies nothing
+//@   flag emits none
+//@   ensures result.XField == 0.0 && result.YField == 0.0
+//@ func (*Point).SetX
+//@   prop C19
+//@   modifies t.XField
+//@   flag emits none
+//@   ensures t.XField == value
+//@ func (*Point).SetY
+//@   prop C19
+//@   modifies t.YField
+//@   flag emits none
+//@   ensures t.YField == value
+
+//@ func newPoint
+//@   prop C19
+//@   modifies nothing
+//@   flag emits none
+//@   ensures result.XField == x && result.YField == y
+
+// An edge leaves its source shape in the middle of the right border and enters its target shape in the middle of the
+// left border; it is either one straight segment or three axis-parallel ones.
+//@ func buildAlignedWaypoints
+//@   prop C19
+//@   modifies nothing
+//@   ensures [two-or-four-points] len(result) == 2 || len(result) == 4
+//@   ensures [starts-on-the-source-shape] result[0].XField == source.x + source.width && result[0].YField == source.y + source.height / 2.0
+//@   ensures [ends-on-the-target-shape] result[len(result) - 1].XField == target.x && result[len(result) - 1].YField == target.y + target.height / 2.0
+//@   ensures [bends-are-axis-parallel] len(result) == 4 ==>
+//@             result[1].YField == result[0].YField && result[1].XField == result[2].XField && result[2].YField == result[3].YField
+
+// Default sizes are positive and at most 120 x 100.
+//@ func flowNodeDefaultSize
+//@   prop C19
+//@   modifies nothing
+//@   flag emits none
+//@   ensures [positive-bounded-size] 36.0 <= width && width <= 120.0 && 36.0 <= height && height <= 100.0
+
+// Two shapes placed by the layout rule (column = level, row centre = row) at different (level, row) positions do not
+// overlap when the column gap is at least every width and the row gap at least every height.
+//@ lemma shapesDoNotOverlap(sx float64, sy float64, cg float64, rg float64, l1 int, r1 int, l2 int, r2 int, w1 float64, h1 float64, w2 float64, h2 float64)
+//@   prop C19
+//@   requires 0.0 <= w1 && w1 <= cg && 0.0 <= w2 && w2 <= cg && 0.0 <= h1 && h1 <= rg && 0.0 <= h2 && h2 <= rg
+//@   requires l1 != l2 || r1 != r2
+//@   ensures sx + l1 * cg + w1 <= sx + l2 * cg || sx + l2 * cg + w2 <= sx + l1 * cg ||
+//@           sy + r1 * rg - h1 / 2.0 + h1 <= sy + r2 * rg - h2 / 2.0 || sy + r2 * rg - h2 / 2.0 + h2 <= sy + r1 * rg - h1 / 2.0
+
+//@ func DefaultBounds
+//@   prop C19
+//@   modifies nothing
+//@   flag emits none
+//@ func (*Bounds).SetX
+//@   prop C19
+//@   modifies t.XField
+//@   flag emits none
+//@   ensures t.XField == value
+//@ func (*Bounds).SetY
+//@   prop C19
+//@   modifies t.YField
+//@   flag emits none
+//@   ensures t.YField == value
+//@ func (*Bounds).SetWidth
+//@   prop C19
+//@   modifies t.WidthField
+//@   flag emits none
+//@   ensures t.WidthField == value
+//@ func (*Bounds).SetHeight
+//@   prop C19
+//@   modifies t.HeightField
+//@   flag emits none
+//@   ensures t.HeightField == value
+//@ func newBounds
+//@   prop C19
+//@   modifies nothing
+//@   flag emits none
+//@   ensures result != nil && fresh(result) && result.XField == x && result.YField == y && result.WidthField == width && result.HeightField == height
+//@ func (*Shape).SetBounds
+//@   prop C19
+//@   modifies t.BoundsField
+//@   flag emits none
+//@   ensures t.BoundsField == value
+
+// Every flow node is placed by the rule "column = level, row centre = row" and gets one shape; an edge is emitted for
+// at most every sequence flow.
+//@ func buildProcessLayout
+//@   prop C19
+//@   requires process != nil && cfg != nil
+//@   loop 1 range nodes
+//@     invariant forall a int :: 0 <= a && a < rk1 ==>
+//@                 nodes[a].x == cfg.StartX + levelMap[nodes[a].id] * cfg.ColumnGap &&
+//@                 nodes[a].y == startY + rowMap[nodes[a].id] * cfg.RowGap - nodes[a].height / 2.0
+//@     exit ensures [every-node-is-placed-by-the-rule] forall a int :: 0 <= a && a < len(nodes) ==>
+//@                 nodes[a].x == cfg.StartX + levelMap[nodes[a].id] * cfg.ColumnGap &&
+//@                 nodes[a].y == startY + rowMap[nodes[a].id] * cfg.RowGap - nodes[a].height / 2.0
+//@   loop 2 range nodes
+//@     invariant len(shapes) == rk2
+//@     exit ensures [one-shape-per-flow-node] len(shapes) == len(nodes)
+//@   loop 3 range flowEdges
+//@     invariant len(edges) <= rk3
+//@     exit ensures [at-most-one-edge-per-sequence-flow] len(edges) <= len(flowEdges)
